@@ -16,6 +16,17 @@ PROPS = {
   "note": TB + "Sequential consistency assumed (the shim serialises threads). Stop-source internals belong to C03's model. Schedulers/timers/io completions are C06/C07/C14.",
   "design_ref": "5/C01",
  },
+ "C03": {
+  "claimed": True, "drivers": [],
+  "technique": "Coq proof (inductive invariant, frames-per-thread model of inplace_stop_source with re-entrant callback bodies; all programs, all schedules) + K1 lock-step with the real inplace_stop_token.cpp, fused_stop_source and token adapter",
+  "text": ("Theorems for ARBITRARY numbers of threads and callbacks, arbitrary thread programs over register/deregister/request_stop/stop_requested with callback bodies that are programs "
+           "themselves (self-deregistration, deregistering another callback, nested request_stop), and ALL schedules: exactly one request_stop is first; stop never reverts; each callback "
+           "runs at most once, and runs iff popped by the stop or registered after it (inline on the registering thread); after a deregistration returns nothing touches the callback and it is "
+           "not running elsewhere; deregistration on the notifying thread never blocks; destroyed callbacks are unreachable; deadlock-freedom. Tie: all schedules <=2/<=3 pre-emptions + random "
+           "of the real code (single source, fused source, adapter: each source projected onto the model) replayed step by step at lock granularity, every memory order compared."),
+  "note": TB + "Sequential consistency assumed (weak-memory behaviour of the annotated orders is compared syntactically only). The composition corollary for chains of adapters is informal.",
+  "design_ref": "5/C03",
+ },
  "C04": {
   "claimed": True, "drivers": [],
   "technique": "Coq proof by induction on sender expressions over the Calc operational model (all scripts, all stop positions) + K2 program differential with the real algorithms",
@@ -37,6 +48,17 @@ PROPS = {
            "on generated expressions x scripts (K2)."),
   "note": TB + "when_any, retry_when, repeat_effect_until, into_variant, variant_sender, defer/just_from, via/on, sync_wait are not in the Calc model yet; values are ints.",
   "design_ref": "5/C05",
+ },
+ "C07": {
+  "claimed": True, "drivers": [],
+  "technique": "Coq proofs: exact integer arithmetic of time_point (lia/nia over Z), stable sorted insertion (induction), TimerQueue interleaving model with a virtual clock (invariants over all schedules) + K3 function differential and K1 lock-step with the real timed_single_thread_context / thread_unsafe_event_loop",
+  "text": ("PARTIAL (io_epoll/io_uring timers use the kernel clock and are not covered). Theorems: time_point normalisation is canonical and value-preserving for all integers, comparison is a strict total "
+           "order agreeing with the exact value, +/- a duration are exact inverses, the difference is the truncated exact difference (after the fix); the timer list insertion is a stable sort; "
+           "for ALL numbers of timers, due times, stop requests and schedules including clock advances: no timer fires before its original due time, the timer thread takes only the due head, "
+           "ties fire in submission order, a cancelled timer becomes due at once, each started timer completes exactly once and is unlinked afterwards, no lost wake-up. "
+           "Tie: 9.7k boundary-aimed arithmetic/heap cases compared exactly; lock-step of the real contexts under a virtual clock."),
+  "note": TB + "int64 overflow is outside the arithmetic model. Kernel-clock contexts are not modelled. thread_unsafe_event_loop has sorted order but no FIFO-ties theorem.",
+  "design_ref": "5/C07",
  },
  "C08": {
   "claimed": True, "drivers": [],
@@ -60,6 +82,18 @@ PROPS = {
   "note": TB + "Sequential consistency. v1-scope programs and throwing allocation/connect are monitored only; spawn_detached's terminate-on-error is not driven; a throwing nest() is not exercised.",
   "design_ref": "5/C09",
  },
+ "C13": {
+  "claimed": True, "drivers": [],
+  "technique": "Coq proof over a stream-pipeline calculus (per-adaptor next/cleanup/stop machines, independent element denotation, executable per-source monitor proved to accept every model trace) + K2-stream differential with the real stream adaptors over scripted sources with tracked operation states",
+  "text": ("Theorems for ALL pipelines over range/single/scripted/never sources with transform, filter, take_until, stop_immediately, type_erase and reduce/for_each consumers, ALL source "
+           "lengths, element values, error positions and ALL scripts incl. stop at any point: the elements fed to the consumer are a prefix of (and without stop_immediately/never exactly) "
+           "the adaptor's denotation; the result is the fold over precisely those; every source's cleanup starts at most once, only after a next was started and all started nexts completed, "
+           "and completes before the consumer's result; at most one result; no use after destroy in the model of the current code (four refuted theorems document the code as written before "
+           "the fixes). Tie: generated pipelines x scripts on the real adaptors, event by event, plus op-state lifetime monitors. The internal races of take_until / stop_immediately / "
+           "type_erased_stream are a separate E1 unit (in progress)."),
+  "note": TB + "on_stream/via_stream/delay/adapt variants are not in the model. reduce_stream has sends_done=false: after a stop the root is the partial fold as a value (stated as such).",
+  "design_ref": "5/C13",
+ },
  "C16": {
   "claimed": True, "drivers": [],
   "technique": "Coq proof (pointer-level model of the v1 event word and next_ chain, auto-reset event on top; invariants over all programs and schedules) + K1 lock-step with the real code",
@@ -69,6 +103,17 @@ PROPS = {
            "direct monitors only (no Coq model yet)."),
   "note": TB + "Sequential consistency. v2 event: monitor only. Findings in cancellable/atomic_intrusive_list surfaced by the v2 lifetime monitor are listed in KNOWN_FINDINGS.txt (see C19/C15).",
   "design_ref": "5/C16",
+ },
+ "C10": {
+  "claimed": True, "drivers": [],
+  "technique": "Coq proof over a coroutine-body calculus (frames, LIFO cleanup lists, unwinding) with an executable trace monitor proved to accept every model trace + K2 differential on generated C++20 coroutine bodies; SrThunk election model with K1 lock-step",
+  "text": ("PARTIAL below the model (frame allocation, symmetric transfer, compiler-generated coroutine code). Theorems for ALL coroutine bodies (return/throw/await of inline, asynchronous, "
+           "stop-reactive leaves and nested tasks, locals, at_coroutine_exit cleanups, try/catch) and ALL scripts: co_await maps value/error/done as specified, a task completes with its "
+           "body's denotation, cleanups run exactly once each in reverse registration order before the parent resumes on every exit path, locals and frames destroyed exactly once, a stop "
+           "request reaches the currently awaited sender; the stop-request thunk resumes the continuation exactly once in every interleaving. Tie: generated coroutine programs x scripts "
+           "compiled as C++20 agree event by event with the extracted model and pass the extracted monitor."),
+  "note": TB + "The pinned suite compiles none of the coroutine code (C++17); this check builds it as C++20 with g++ 12.",
+  "design_ref": "5/C10",
  },
  "C11": {
   "claimed": True, "drivers": [],
@@ -87,6 +132,17 @@ PROPS = {
            "type-erased wrappers' declared query sets and allocate()/spawn allocator symmetry are not in the model yet."),
   "note": TB + "Only the stop token and two user-defined query CPOs are modelled.",
   "design_ref": "5/C12",
+ },
+ "C19": {
+  "claimed": True, "drivers": [],
+  "technique": "Coq proofs per wrapper: reachable-set closure certificates checked by the kernel (cancellable, canary, create_basic_sender, detach_on_cancel: finite thread sets) and a hand-written inductive invariant (stop_on_request, parametric n) + K1 lock-step with the real wrappers, ASan variants in the thorough tier",
+  "text": ("Theorems for ALL schedules of {start body, completion on thread A, stop on thread B, destruction by the owner} in every mode (sync/async completion, skip-start, stop first): "
+           "exactly one completion, the stop hook at most once and only for a started uncompleted operation, callbacks torn down before completion, detach_on_cancel frees the child exactly once, "
+           "canary never used after destruction and blocks only while a guard is held. The 'nothing touches the operation after completion' statement is REFUTED for cancellable and "
+           "create_basic_sender on the faithful models, with witness schedules reproduced on the real code (listed in KNOWN_FINDINGS.txt, not fixed: they need a protocol change). "
+           "Tie: 169k schedules / 3.4k projected traces (quick), every step compared."),
+  "note": TB + "Sequential consistency. Known findings are reported as KNOWN-FINDING lines. create<> and the affine completion_forwarder mode are not covered.",
+  "design_ref": "5/C19",
  },
  "C17": {
   "claimed": True,
